@@ -99,11 +99,18 @@ def paraOfPairs (kvs : List (Str × Str)) : DNode :=
 
 def emptyLine : DNode := .node .EMPTY_LINE [Node.tok .NEWLINE ['\n']]
 
-/-- `FromIterator<Paragraph> for Deb822` (lossless.rs:617-632) -/
+/-- `terminate_last_line` on (a copy of) a paragraph node -/
+def terminatePara : DNode → DNode
+  | .node k cs => .node k (terminateLastLine cs)
+  | t => t
+
+/-- `FromIterator<Paragraph> for Deb822`: a paragraph that is followed by another one gets the
+    terminator of its last line when a parsed paragraph lacks it (fix b4e3d7f, F-C05-4), then one
+    blank line -/
 def docOfParas : List DNode → List DNode
   | [] => []
   | [p] => [p]
-  | p :: q :: ps => p :: emptyLine :: docOfParas (q :: ps)
+  | p :: q :: ps => terminatePara p :: emptyLine :: docOfParas (q :: ps)
 
 /-! ### documents with live paragraph handles -/
 
